@@ -279,7 +279,9 @@ def adjust_offsets_w_sustain(
         return
 
     # sort, just in case
-    pedal = pedal[np.argsort(pedal[:, 0]), :]
+    # (stable: events at the same time keep their order in the stream, the
+    # last one is in force afterwards)
+    pedal = pedal[np.argsort(pedal[:, 0], kind="stable"), :]
 
     # reduce the pedal info to just the times where there is a change in pedal state
     pedal = np.vstack(
